@@ -60,13 +60,13 @@ def run(ctx):
         if got != want:
             ctx.violation("statement nesting of %r is %s, expected %s" % (body, got, want), {"kind": "extbody", "body": body, "want": want})
     ctx.count(len(EXT_CASES), nontrivial_n=len(EXT_CASES))
-    reqs = [("c05", "enum", "8", "25", "1", "0", "100000"), ("c05", "enum", "3", "25", "2", "0", "100000")]
+    reqs = [("c05", "enum", "8", "26", "1", "0", "100000"), ("c05", "enum", "3", "26", "2", "0", "100000")]
     if not ctx.quick():
         reqs += [("c05", "enum", "2", "12", "3", str(lo), str(lo + 20000)) for lo in range(0, 900000, 20000)]
     reqs.append(("c05", "rand", str(ctx.seed), "3000" if ctx.quick() else "60000", "3"))
     reqs.append(("c05", "rand", str(ctx.seed + 77), "500" if ctx.quick() else "10000", "5"))
     cases = S.fetch(reqs)
-    ctx.rule("all statement trees of depth <=%s over the reduced alphabet (Lean enumerator: 25 one-child wrappers: if/while/do/switch/case/default/label/block/pragma + all 16 for-forms (4 init forms x condition x step), if-else with dangling-else discipline, two-item blocks) + random function bodies of depth 3 and 5 with declarations, static assertions, pragma lines at every boundary and switch blocks with label chains; distinct by text" % ("2" if ctx.quick() else "3 (2 atoms, 12 wrappers)"))
+    ctx.rule("all statement trees of depth <=%s over the reduced alphabet (Lean enumerator: 26 one-child wrappers: if/while/do/switch/case/default/label/block/#pragma line/_Pragma operator + all 16 for-forms (4 init forms x condition x step), if-else with dangling-else discipline, two-item blocks) + random function bodies of depth 3 and 5 with declarations, static assertions, pragma lines at every boundary and switch blocks with label chains; distinct by text" % ("2" if ctx.quick() else "3 (2 atoms, 12 wrappers)"))
     S.check_against_spec(ctx, cases, "C05")
 
 
